@@ -112,6 +112,33 @@ CHECKS = {
         note='Trusted: ref_chain (Appendix F.3). Middlewares / handlers do not raise.',
         technique='deterministic simulation: instrumented callee chain, per-element event-log oracle vs reference chain',
     ),
+    'C06': dict(
+        category='fault_enumeration', design_ref='DESIGN.md section 3, C06',
+        text='Structure-aware fault enumeration on messages in flight, both legs: every single (quick) and double '
+             '(thorough) member replacement from per-member alphabets (absent / null / each JSON type / edge values) '
+             'for success responses, error responses and error objects on the response leg of real client-server '
+             'exchanges (single and batch, all notations, strict on/off), and for request objects on the request leg '
+             'observed through the real server; non-object bodies. The client may only end in a normal outcome or the '
+             'library deserialisation / identity error and must never accept what the reference validator rejects; the '
+             'message in flight is also fed to each from_json directly. Plus id collisions injected at the id-generator '
+             'seam (a refused add leaves the batch unchanged: next call() sends exactly the earlier requests) and '
+             'append/extend histories of up to 4 ids against a list model.',
+        note='Trusted: ref_jsonrpc validators, ref_client matcher. A missing id member in a response is an open zone.',
+        technique='deterministic simulation: enumerated structure-aware message corruption on both legs, id-generator collision faults',
+    ),
+    'C08': dict(
+        category='fault_enumeration', design_ref='DESIGN.md section 3, C08',
+        text='Response-leg fault enumeration: the true reply of the real dispatcher to a real client batch (1-4 calls '
+             'plus notifications, every success/error mix) or single call is permuted, shortened, duplicated, extended '
+             'with a foreign element, id-confused (other call, type twin 1<->"1", null, foreign), replaced by a '
+             'batch-level error, corrupted member-wise, unwrapped or made undecodable; every (size, fault kind, strict, '
+             'client kind, notation) combination is forced, fault arguments seeded. The client verdict (identity / '
+             'deserialisation error, acceptance, related links, positional and tuple attribution in call order, first '
+             'failing call, batch-level error) is compared with a reference matcher.',
+        note='Trusted: ref_client.match_single / match_batch (Appendix F.2). Open zones (null ids inside a batch array, '
+             'non-strict mismatches) are not judged.',
+        technique='deterministic simulation: enumerated response-leg faults on real client-server exchanges, reference matcher',
+    ),
 }
 
 BUILT = sorted(CHECKS)
